@@ -5,11 +5,12 @@ go 1.23
 require (
 	github.com/anacrolix/dht/v2 v2.19.2-0.20221121215055-066ad8494444
 	github.com/anacrolix/generics v0.0.0-20230816105729-c755655aee45
+	github.com/anacrolix/log v0.15.2
+	golang.org/x/time v0.0.0-20220609170525-579cf78fd858
 )
 
 require (
 	github.com/anacrolix/chansync v0.3.0 // indirect
-	github.com/anacrolix/log v0.15.2 // indirect
 	github.com/anacrolix/missinggo v1.3.0 // indirect
 	github.com/anacrolix/missinggo/perf v1.0.0 // indirect
 	github.com/anacrolix/missinggo/v2 v2.7.1 // indirect
@@ -24,7 +25,6 @@ require (
 	golang.org/x/exp v0.0.0-20221217163422-3c43f8badb15 // indirect
 	golang.org/x/sync v0.0.0-20220722155255-886fb9371eb4 // indirect
 	golang.org/x/sys v0.6.0 // indirect
-	golang.org/x/time v0.0.0-20220609170525-579cf78fd858 // indirect
 )
 
 replace github.com/anacrolix/dht/v2 => /repo
